@@ -1,5 +1,6 @@
 import GlyProofs.Front.WalkDen
 import GlyProofs.Front.TreeShape
+import GlyProofs.Front.ComponentsFloat
 /-
   C03 — The parsed tree is the glycan that was written, all of it.  (Property theorems only.)
 -/
@@ -66,5 +67,15 @@ theorem C03_tree_shape (w : WalkCfg) (s : Start) (hf : s.floats = []) :
     · intro e hm
       simp only [List.nil_append] at hm
       exact (hp e hm).1
+
+/-- **Every written glycan is a forest** – floating `{…}` parts included: in the walked graph no node is the child of two edges (the
+    children of the edges, in insertion order, strictly increase), every edge points from a smaller id to a larger existing one, and
+    there are exactly `1 + number of floating parts` nodes without incoming edge (nodes minus edges). -/
+theorem C03_forest_shape (w : WalkCfg) (s : Start) :
+    ((walkStart w s).edges.map (·.2.1)).Pairwise (· < ·) ∧
+    (∀ e ∈ (walkStart w s).edges, e.1 < e.2.1 ∧ e.2.1 < (walkStart w s).nodes.length) ∧
+    (walkStart w s).edges.length + (s.floats.length + 1) = (walkStart w s).nodes.length :=
+  let h := shape_walkStart w s
+  ⟨h.sorted, h.bound, h.count⟩
 
 end Gly.Props.C03
